@@ -148,7 +148,7 @@ theorem g2s2_rt_ne (f : Nat) (hf : f < 2) (h : g.b / 16 % 2 ≠ f) : (cg2s2 s g)
   have hlt : g.b / 16 % 2 < 2 := Nat.mod_lt _ (by decide)
   unfold cg2s2; simp only []
   split <;> split <;> first | rfl | simp only [lastRt_upd_rt, setRt_rt_ne _ _ _ _ hlt hf h]
-theorem g2s2_lastRt : (cg2s2 s g).lastRt = if cg2sw s g then ((g.b / 16 % 2 : Nat) : Int) else s.lastRt := by
+theorem cells_g2s2_lastRt : (cg2s2 s g).lastRt = if cg2sw s g then ((g.b / 16 % 2 : Nat) : Int) else s.lastRt := by
   unfold cg2s2; simp only []; split <;> split <;> simp
 end cg2s2
 
@@ -184,7 +184,7 @@ theorem switchDiscard_eq_clr (m : Mon) (s : State) (g : Group) (hlf : m.lastFlag
 theorem rtNoisy_eq_guard (m : Mon) (s : State) (g : Group) (hlf : m.lastFlag = s.lastRt)
     (h2 : g.type = 2) : rtNoisy m g = cg2guard s g := by
   unfold rtNoisy cg2guard
-  rw [g2s2_lastRt, hlf]
+  rw [cells_g2s2_lastRt, hlf]
   by_cases he : g.eb = 0
   · simp [he]
   · have : cg2sw s g = false := by simp [cg2sw, he]
